@@ -17,7 +17,8 @@ func init() {
 	fw.Register(&fw.Prop{
 		ID: "C19",
 		Rule: "sequential reference-model monitor (two integer counters): seeded histories of 1..60 Accumulate calls with batch sizes 1..50 and labels from {small integer sets, arbitrary reals, values containing NaN (never equal to anything), all-matching and all-differing batches}, interleaved with invalid calls (nil tensors, rank 0 / rank 2, mismatched lengths, foreign tensor) and a Result call after EVERY step. Result must equal matched/total exactly (0 before any accepted call), lie in [0,1], and be unchanged by a rejected call; error <=> invalid. The same data are then replayed into fresh Accuracy objects under 3..6 random re-partitions and as one single batch: the final Result must be bit-identical. " +
-			"Non-trivial: >= 2 accepted batches with both matching and non-matching positions; distinct = (label class, number of batches, number of invalid calls, has a zero-match batch after a matching one). Later additions: batches of 100..999 positions; histories of 1100..1700 tiny batches on one object; a label class whose equality the statement leaves open (+-Inf, differences below 1e-240), decided only by partition invariance, range and rejected-call neutrality, with many batches of size 1.",
+			"Non-trivial: >= 2 accepted batches with both matching and non-matching positions; distinct = (label class, number of batches, number of invalid calls, has a zero-match batch after a matching one). Later additions: batches of 100..999 positions; histories of 1100..1700 tiny batches on one object; a label class whose equality the statement leaves open (+-Inf, differences below 1e-240), decided only by partition invariance, range and rejected-call neutrality, with many batches of size 1." +
+			" Round 4: one tensor object in both roles (accepted for rank 1, refused for ranks 0, 2, 3); a third of the label tensors are results of earlier operations (Reshape, Flatten, Slice, Concat, row of a matrix, Transpose+Squeeze, Broadcast of one element) on sources whose NElems / Shape / Mean were taken first.",
 		Assumptions: []string{"prediction/target values at a position are either bit-identical or differ by >= 1e-3 (or one of them is NaN)"},
 		FloorQuick:  1200, FloorThor: 2000,
 		Run: runC19,
@@ -59,7 +60,7 @@ func c19History(k *fw.K) {
 			}
 		}
 		p, t := make([]float64, n), make([]float64, n)
-		mode := r.Intn(4) // 0 mixed, 1 all match, 2 none match, 3 mixed
+		mode := r.Intn(5) // 0 mixed, 1 all match, 2 none match, 3 mixed, 4 constant prediction
 		for i := range p {
 			switch class {
 			case 4:
@@ -93,6 +94,11 @@ func c19History(k *fw.K) {
 				if mode == 2 && p[i] == t[i] {
 					p[i] = t[i] + 1
 				}
+			}
+		}
+		if mode == 4 && class != 4 {
+			for i := range p {
+				p[i] = p[0]
 			}
 		}
 		batches = append(batches, batch{p, t})
@@ -137,7 +143,16 @@ func c19History(k *fw.K) {
 	}
 	bad := func() (tensor.Tensor, tensor.Tensor, string) {
 		v := rt.MustLeaf(ref.Full([]int{3}, 1), false)
-		switch r.Intn(6) {
+		switch r.Intn(9) {
+		case 6:
+			s := rt.MustLeaf(ref.Scalar(1), false)
+			return s, s, "one rank-0 tensor object in both roles"
+		case 7:
+			m := rt.MustLeaf(ref.Full([]int{1 + r.Intn(3), 1 + r.Intn(3)}, 1), false)
+			return m, m, "one rank-2 tensor object in both roles"
+		case 8:
+			m := rt.MustLeaf(ref.Full([]int{2, 1, 2}, 0), r.Intn(2) == 0)
+			return m, m, "one rank-3 tensor object in both roles"
 		case 0:
 			return nil, v, "nil prediction"
 		case 1:
@@ -173,7 +188,28 @@ func c19History(k *fw.K) {
 		}
 		var err error
 		if pn := call(func() {
-			err = acc.Accumulate(rt.MustLeaf(ref.New([]int{len(b.P)}, b.P), r.Intn(4) == 0), rt.MustLeaf(ref.New([]int{len(b.T)}, b.T), false))
+			var tp, tt tensor.Tensor
+			if r.Intn(3) == 0 {
+				var how string
+				tp, how = c19Derived(k, b.P)
+				k.Count("predictions_"+how, 1)
+			} else {
+				tp = rt.MustLeaf(ref.New([]int{len(b.P)}, b.P), r.Intn(4) == 0)
+			}
+			same := true
+			for i := range b.P {
+				same = same && math.Float64bits(b.P[i]) == math.Float64bits(b.T[i])
+			}
+			switch {
+			case same && r.Intn(2) == 0:
+				tt = tp // the very same tensor object in both roles
+				k.Count("batches_with_one_object_in_both_roles", 1)
+			case r.Intn(4) == 0:
+				tt, _ = c19Derived(k, b.T)
+			default:
+				tt = rt.MustLeaf(ref.New([]int{len(b.T)}, b.T), false)
+			}
+			err = acc.Accumulate(tp, tt)
 		}); pn != nil || err != nil {
 			k.Failf("Accumulate(batch %d of size %d): panic=%v err=%v", bi, len(b.P), pn, err)
 			return
@@ -232,6 +268,103 @@ func c19History(k *fw.K) {
 			return
 		}
 	}
+}
+
+// c19Derived builds the rank-1 tensor with the given elements NOT as a leaf but as the result of
+// earlier operations on a source whose statistics (NElems, Shape, Mean) were already asked for.
+func c19Derived(k *fw.K, data []float64) (tensor.Tensor, string) {
+	r := k.Rng
+	n := len(data)
+	touch := func(t tensor.Tensor) {
+		if r.Intn(3) != 0 {
+			_ = t.NElems()
+		}
+		if r.Intn(3) == 0 {
+			_ = t.Shape()
+		}
+		if r.Intn(4) == 0 {
+			_ = t.Mean()
+		}
+	}
+	must := func(t tensor.Tensor, err error) tensor.Tensor {
+		if err != nil || t == nil {
+			panic("harness: derived label tensor: " + err.Error())
+		}
+		touch(t)
+		return t
+	}
+	constant := true
+	for _, v := range data {
+		constant = constant && math.Float64bits(v) == math.Float64bits(data[0])
+	}
+	route := r.Intn(6)
+	if constant && r.Intn(2) == 0 {
+		route = 6
+	}
+	switch route {
+	case 0: // Reshape of [n,1] / [1,n] / a factorisation
+		shape := [][]int{{n, 1}, {1, n}, {1, n, 1}}[r.Intn(3)]
+		for a := 2; a < n; a++ {
+			if n%a == 0 && r.Intn(2) == 0 {
+				shape = []int{a, n / a}
+				break
+			}
+		}
+		src := rt.MustLeaf(ref.New(shape, data), r.Intn(4) == 0)
+		touch(src)
+		if r.Intn(2) == 0 {
+			return must(src.Flatten(0)), "flattened"
+		}
+		return must(src.Reshape([]int{n})), "reshaped"
+	case 1: // Slice of a longer tensor
+		pre, post := r.Intn(3), r.Intn(3)
+		long := make([]float64, 0, n+pre+post)
+		for i := 0; i < pre; i++ {
+			long = append(long, 9)
+		}
+		long = append(long, data...)
+		for i := 0; i < post; i++ {
+			long = append(long, 9)
+		}
+		src := rt.MustLeaf(ref.New([]int{len(long)}, long), false)
+		touch(src)
+		return must(src.Slice([]tensor.Range{{From: pre, To: pre + n}})), "sliced"
+	case 2: // Concat of two pieces
+		if n < 2 {
+			break
+		}
+		cut := 1 + r.Intn(n-1)
+		a := rt.MustLeaf(ref.New([]int{cut}, data[:cut]), false)
+		b := rt.MustLeaf(ref.New([]int{n - cut}, data[cut:]), false)
+		touch(a)
+		touch(b)
+		return must(tensor.Concat([]tensor.Tensor{a, b}, 0)), "concatenated"
+	case 3: // row of a matrix
+		rows := 1 + r.Intn(3)
+		row := r.Intn(rows)
+		m := ref.Full([]int{rows, n}, 9)
+		copy(m.Data[row*n:], data)
+		src := rt.MustLeaf(m, false)
+		touch(src)
+		sl := must(src.Slice([]tensor.Range{{From: row, To: row + 1}}))
+		return must(sl.Squeeze(0)), "row of a matrix"
+	case 4: // Transpose of a row into a column, squeezed
+		src := rt.MustLeaf(ref.New([]int{1, n}, data), false)
+		touch(src)
+		return must(must(src.Transpose()).Squeeze(1)), "transposed"
+	case 6: // all positions equal: expansion of a one-element source
+		var src tensor.Tensor
+		if r.Intn(2) == 0 {
+			src = rt.MustLeaf(ref.Scalar(data[0]), false)
+		} else {
+			src = rt.MustLeaf(ref.New([]int{1}, data[:1]), false)
+		}
+		touch(src)
+		return must(src.Broadcast([]int{n})), "broadcast from one element"
+	}
+	t := rt.MustLeaf(ref.New([]int{n}, data), false)
+	touch(t)
+	return t, "leaf with statistics taken"
 }
 
 func itoa(i int) string {
